@@ -1,8 +1,10 @@
 package main
 
 import (
+	"encoding/json"
 	"fmt"
 	"net"
+	"strings"
 	"sync"
 	"time"
 
@@ -164,4 +166,30 @@ func c14(ctx *Ctx) {
 	// real expiry, reclamation and listener shutdown through the PacketHandler
 	ctx.Stats.Rule = "part 1: sequences of datagrams written to / read from one association (DNS and non-DNS peers, random spacing) through the real natconn over a PacketConn that records SetReadDeadline; deadlines compared with the timer model (40 ms tolerance); part 2: the UDP loopback scenario with idle periods longer than the NAT timeout and listener shutdown: removals counted; non-trivial = distinct op sequences, at least one fast close must occur"
 	cUDPInto(ctx, "C14", 40, shard+1)
+	// part 3: descriptors. The UDP barrage of the C18 child (a process of its own, no garbage
+	// collection, so a finalizer cannot close a forgotten socket): after the listener is shut down
+	// every outbound socket of every association must be closed and every entry reported removed
+	out, code := runSelfChild(120*time.Second, "c18run", fmt.Sprint(ctx.Seed*1000+7), "udp")
+	var rep c18Report
+	got := false
+	for _, line := range strings.Split(out, "\n") {
+		if strings.HasPrefix(line, "C18REPORT ") {
+			got = json.Unmarshal([]byte(line[10:]), &rep) == nil
+		}
+	}
+	if code == 0 && got && rep.Done {
+		ctx.Count("shutdown-census:runs")
+		ctx.CountN("shutdown-census:associations", int(rep.NatEntriesAdded))
+		if rep.Fd1 > rep.Fd0 {
+			ctx.Monitor("C14/sockets-left-after-shutdown", fmt.Sprintf("%d sockets open before the scenario, %d after every association ended and the listener was shut down: %v", rep.Fd0, rep.Fd1, rep.OpenFds), map[string]interface{}{"child": "c18run", "mode": "udp", "seed": ctx.Seed*1000 + 7})
+		}
+		if rep.NatEntriesAdded != rep.NatEntriesGone {
+			ctx.Monitor("C14/removal-not-reported", fmt.Sprintf("%d associations added, %d removals reported after shutdown", rep.NatEntriesAdded, rep.NatEntriesGone), nil)
+		}
+		if rep.PacketStuck {
+			ctx.Monitor("C14/shutdown-does-not-return", "the packet handler did not return within 8 s after its listener was closed", nil)
+		}
+	} else {
+		ctx.Count("shutdown-census:child-failed")
+	}
 }
